@@ -1,3 +1,4 @@
+mod area;
 mod binfmt;
 mod fonts;
 mod gfx;
@@ -43,6 +44,7 @@ fn main() {
         "c18" => small::c18(&a),
         "c19" => small::c19(&a),
         "c20" => gfx::c20(&a),
+        "area" => area::area(&a),
         "igs" => igs::igs(&a),
         "rip" => rip::rip(&a),
         other => {
